@@ -29,6 +29,7 @@ CONFIG_TIME_LIMIT = {'quick': 300, 'thorough': 600}
 I, R = z3.IntSort(), z3.RealSort()
 x = z3.Function('x', I, R)
 NU = z3.Function('nu', I, R)
+XB = z3.Function('xb', I, R)      # a second signal
 
 
 class DT(str):
@@ -56,6 +57,21 @@ class NP:
     @staticmethod
     def moveaxis(a, s, d):
         raise symex.Unsupported('moveaxis (deprecated axis argument)')
+
+    @staticmethod
+    def empty(shape, dtype=None):
+        if isinstance(shape, tuple) and len(shape) == 1:
+            shape = shape[0]
+        J = z3.Function('uninit%d' % len(NP._allocs), I, R)
+        NP._allocs.append(J)
+        return ND.fresh((shape,), lambda idx: J(idx[0]), dtype or 'f8')
+
+    zeros = empty
+    _allocs = []
+
+    @staticmethod
+    def copyto(dst, src, casting='same_kind', where=True):
+        dst[...] = src
 
 
 def _shape_len(shape):
@@ -124,13 +140,29 @@ def run_np(cfg):
         bad = [_z(out.shape[0]) != N, z3.BoolVal(out.dtype != dt)]
         if not decide(N > 0):
             return ('ok', bad)
+        ncalls = len(Rand.calls)
+        # a second call on the same object with another signal of the same length: results are separate arrays, the first
+        # one keeps its values (no working buffer of the object may be handed out)
+        a2 = ND.fresh((conc(SInt(N)),), lambda idx: XB(idx[0]), dt)
+        a2.store.readonly = not allowed_write
+        try:
+            out2 = obj.apply(a2, in_place=in_place)
+        except Exception as e:
+            symex.guard(e)
+            return ('exception', 'second call: %s: %s' % (type(e).__name__, e))
         got = out.get(i)
         if kind == 'preemph':
             want = z3.If(i == 0, x(0), x(i) - symex.rmul(co, x(i - 1)))
+            want2 = z3.If(i == 0, XB(0), XB(i) - symex.rmul(co, XB(i - 1)))
         else:
             want = x(i) + symex.rmul(co, NU(i))
-            bad.append(z3.BoolVal(len(Rand.calls) != 1))
+            want2 = None          # second draw: another noise realisation (only aliasing is checked)
+            bad.append(z3.BoolVal(ncalls != 1))
         bad.append(got != _cast(dt, want))
+        if want2 is not None:
+            bad.append(out2.get(i) != _cast(dt, want2))
+        if not allowed_write:
+            bad.append(a2.get(i) != XB(i))
         if allowed_write:
             # in place: same values, and they were written into the caller's array
             bad.append(a.get(i) != want)
@@ -454,4 +486,15 @@ def replay(w):
                         % (k, w['dt'], N, co, w['in_place'], np.argwhere(got != want)[:1].tolist() if got.shape == want.shape else 'shape')}
             if not (w['in_place'] and dt == np.float64) and not np.array_equal(xs, orig):
                 return {'reproduced': True, 'detail': 'input modified'}
+            # two calls on one object: the first result must keep its values and its own memory
+            obj = Preemphasize(co) if k == 'preemph' else Dither(max(co, 0.0))
+            x1, x2 = (rng.randn(N) * 50).astype(dt), (rng.randn(N) * 50).astype(dt)
+            y1 = obj.apply(x1.copy(), in_place=w['in_place'])
+            keep = y1.copy()
+            x2c = x2.copy()
+            y2 = obj.apply(x2c, in_place=w['in_place'])
+            if N and (not np.array_equal(y1, keep) or np.shares_memory(y1, y2)):
+                return {'reproduced': True, 'detail': '%s dtype=%s N=%d in_place=%s: the result of the first call changed after (or shares memory with) a second call on the same object' % (k, w['dt'], N, w['in_place'])}
+            if not (w['in_place'] and dt == np.float64) and not np.array_equal(x2c, x2):
+                return {'reproduced': True, 'detail': 'input of the second call modified'}
     return {'reproduced': False, 'detail': 'real pre-processor matches the documented transform on the neighbourhood'}
